@@ -48,6 +48,7 @@ type langOpts struct {
 	keepErr       bool
 	first         []string // when non-nil: this command line is run first, on the same instance
 	hasFirst      bool
+	fullArgv      []string // when non-nil: exactly this slice (program name included) is handed to Run, not a copy
 }
 
 func optName(o ref.OptDecl) string {
@@ -177,6 +178,9 @@ func runLang(d *ref.Decl, spec string, argv []string, lo langOpts) LangObs {
 	full := append([]string{"app"}, argv...)
 	if d.Nested {
 		full = append([]string{"app", "sub"}, argv...)
+	}
+	if lo.fullArgv != nil {
+		full = lo.fullArgv
 	}
 	if lo.hasFirst {
 		sharedBuf.Reset()
